@@ -44,7 +44,7 @@ ANCHORS = [
 TIMEOUT = 900.0
 
 APIS = ["optimize", "optimize_noinline", "rewrite", "rewrite_custom", "rewrite_empty", "fold_constants", "remove_unused_nodes",
-        "remove_unused_functions", "convert_version", "replace_functions", "inline"]
+        "remove_unused_functions", "convert_version", "convert_version_fallback", "replace_functions", "inline"]
 INPLACE = {   # documented behaviour per entry form: "inplace" | "functional" | "identity" | None (not documented)
     "optimize": {"proto": "functional", "ir": "inplace"},
     "optimize_noinline": {"proto": "functional", "ir": "inplace"},
@@ -55,6 +55,7 @@ INPLACE = {   # documented behaviour per entry form: "inplace" | "functional" | 
     "remove_unused_nodes": {"proto": "inplace", "ir": "inplace"},
     "remove_unused_functions": {"proto": "inplace", "ir": "inplace"},
     "convert_version": {"proto": "inplace", "ir": "inplace"},
+    "convert_version_fallback": {"proto": "inplace", "ir": "inplace"},
     "replace_functions": {"proto": "functional", "ir": "inplace"},
     "inline": {"ir": "inplace"},
 }
@@ -171,6 +172,10 @@ def _call(api, form, arg, aside, target_version):
     if api == "convert_version":
         vc.convert_version(arg, target_version)
         return arg
+    if api == "convert_version_fallback":
+        # a conversion the native converter does not support (down-conversion) with fallback=True: the ONNX C-API path
+        vc.convert_version(arg, target_version, fallback=True)
+        return arg
     if api == "replace_functions":
         if form == "proto":
             return rep.replace_functions(arg, aside)
@@ -225,6 +230,11 @@ def check_model(mb: bytes, aside, label, hit, v, generated=True):
                 hit("api_skipped:convert_version")
                 continue
             tv = default_opset + 1 + (len(mb) % (25 - default_opset))
+        if api == "convert_version_fallback":
+            if default_opset is None or not (18 < default_opset <= 25):
+                hit("api_skipped:convert_version_fallback")
+                continue
+            tv = default_opset - 1 - (len(mb) % min(3, default_opset - 17))
         if api == "replace_functions" and not aside:
             if generated:
                 continue
